@@ -41,6 +41,8 @@ type frame struct {
 	deferBase int
 	contract *FuncContract // contract whose invariants apply to loops of this frame (nil for inlined)
 	depth    int
+	recvAliasPrefix string // loop scan: heap class prefix of an embedded-struct receiver
+	recvAliasType   types.Type
 }
 
 // fctx is the verification context of one function under contract.
@@ -604,9 +606,7 @@ func (fr *frame) evalUnary(st *State, x *ast.UnaryExpr) *Value {
 			if lv.kind == lvHeap && lv.prefix == structClass(lv.T) {
 				return scalar(lv.ref, fr.typeOf(x))
 			}
-			av0 := mkVar(freshName("alias"), SInt)
-			st.assume(Gt(av0, mkInt(0)))
-			return &Value{K: VScalar, T: fr.typeOf(x), S: av0, Alias: lv}
+			return &Value{K: VScalar, T: fr.typeOf(x), S: aliasAddr(st, lv), Alias: lv}
 		case lvVar:
 			// address of a local: an alias pointer (never nil)
 			av := mkVar(freshName("alias"), SInt)
